@@ -71,6 +71,16 @@ def parseFrame (j : Json) : Option Frame := do
   let r ← (← asArr a[3]!).toList.mapM parseNode
   some { kind := k, pos := p, left := l, right := r }
 
+/-- blocks = [body, handlers, orelse, finalbody, cases], each null | [nodes] -/
+def parseBlocks (j : Json) : Option Blocks := do
+  let a ← asArr j
+  if a.size != 5 then none
+  let one (x : Json) : Option (Option (List Node)) :=
+    if isNull x then some none else do
+      let l ← (← asArr x).toList.mapM parseNode
+      some (some l)
+  some { body := ← one a[0]!, handlers := ← one a[1]!, orelse := ← one a[2]!, finalbody := ← one a[3]!, cases := ← one a[4]! }
+
 def posJson (p : Option Pos) : Json :=
   match p with
   | none => Json.null
@@ -109,6 +119,7 @@ def dispatch (f : String) (j : Json) : Option Json :=
             ("path", Json.str (pathStr p.path)), ("set_ast", Json.bool p.setAst),
             ("first_lineno", ofNat p.firstLineno), ("delta", ofInt p.delta),
             ("pend", ofNats [p.pendLn, p.pendCol]),
+            ("head_end_new", let h := headEndAfter (p.pendLn, p.pendCol) new rect; ofNats [h.1, h.2]),
             ("ret", ofNats [re.1, re.2]), ("src", ofLines (putSrc lines new rect))]
       | _ => return err "bad rect"
   | "C10.splice" => some <| Id.run do
@@ -135,6 +146,9 @@ def dispatch (f : String) (j : Json) : Option Json :=
           firstLineno := (getNat m "first_lineno").getD 0, delta := (getInt m "delta").getD 0,
           nOldHead := (getNat m "n_old_head").getD 0, nNewHead := (getNat m "n_new_head").getD 0,
           noEndCopy := (getBool m "no_end_copy").getD false, follows := (getBool m "follows").getD false,
+          oldBlocks := ((get m "old_blocks").bind parseBlocks).getD {},
+          newBlocks := ((get m "new_blocks").bind parseBlocks).getD {},
+          headEndSame := (getBool m "head_end_same").getD true,
           sameStart := getBool m "same_start", sameParentKind := (getBool m "same_parent_kind").getD true }
         let g := guardOk mode focus (applyDelta mode.firstLineno mode.delta sub)
         let z := reparseTree off mode ⟨ctx, focus⟩ sub
